@@ -101,7 +101,7 @@ class G:
 
     # ---- operators
     def conv(self, x, oc, k=3, stride=1, padding=PAD_SAME, act=ACT_NONE, dil=1, per_channel=True, oscale=None, ozp=None,
-             kw=None, stride_w=None, wdist=None, bias=True, wzp=None, bias64=False):
+             kw=None, stride_w=None, wdist=None, bias=True, wzp=None, bias64=False, share_w=None, share_b=None):
         r = self.rng
         X = self.T(x)
         _, h, w, ic = X.shape
@@ -121,19 +121,64 @@ class G:
         else:
             wz = [0] * nsc
             wdata = self.rweights((oc, kh, kw, ic), wdist)
-        W = self.const(nm + "_w", (oc, kh, kw, ic), wd, wdata, wsc, wz, 0)
+        if share_w is not None:
+            W = self.T(share_w)  # second consumer of an existing filter tensor
+            wsc = list(W.scale)
+            nsc = len(wsc)
+        else:
+            W = self.const(nm + "_w", (oc, kh, kw, ic), wd, wdata, wsc, wz, 0)
         ins = [x, W.name]
-        if bias:
+        if bias and share_b is not None:
+            ins.append(share_b)
+        elif bias:
             bsc = [float(np.float32(X.scale[0] * s)) for s in wsc]
             bd = "int64" if (X.dtype.name == "int16" and bias64) else "int32"
             blim = 2 ** 15 if X.dtype.name != "int16" else 2 ** 20
             bdata = r.integers(-blim, blim, (oc,))
             B = self.const(nm + "_b", (oc,), bd, bdata, bsc, [0] * nsc, 0)
             ins.append(B.name)
-        out = self.act(nm + "_o", (1, oh, ow, oc), oscale, ozp)
+        out = self.act(nm + "_o", (1, oh, ow, oc), oscale, ozp, dtype=X.dtype.name)
+        self.last_conv = (W.name, ins[2] if len(ins) > 2 else None)
         self.net.add_o(BO.CONV_2D, ins, [out.name], "Conv2DOptions",
                        dict(padding=padding, stride_w=sw, stride_h=sh, dilation_w_factor=dil, dilation_h_factor=dil, fused_activation_function=act), 3)
         self.kinds.append("conv")
+        return out.name
+
+    def tconv(self, x, oc, k=3, stride=2, padding=PAD_SAME, per_channel=True, oscale=None, ozp=None, kw=None, bias=True, share_w=None, wdist=None):
+        """TRANSPOSE_CONV: inputs [output shape, filter OHWI, ifm, bias]"""
+        r = self.rng
+        X = self.T(x)
+        _, h, w, ic = X.shape
+        kh, kw = k, (kw or k)
+        if padding == PAD_SAME:
+            oh, ow = h * stride, w * stride
+        else:
+            oh, ow = h * stride + max(kh - stride, 0), w * stride + max(kw - stride, 0)
+        nm = self.name("tconv")
+        wd = "uint8" if X.dtype.name == "uint8" else "int8"
+        if wd == "uint8":
+            per_channel = False
+        nsc = oc if per_channel else 1
+        wsc = [self.rscale(0.002, 0.03) for _ in range(nsc)]
+        if share_w is not None:
+            W = self.T(share_w)
+            wsc = list(W.scale)
+            nsc = len(wsc)
+        elif wd == "uint8":
+            wz = [int(r.integers(100, 156))]
+            W = self.const(nm + "_w", (oc, kh, kw, ic), wd, np.clip(self.rweights((oc, kh, kw, ic), wdist) + wz[0], 0, 255), wsc, wz, 0)
+        else:
+            W = self.const(nm + "_w", (oc, kh, kw, ic), wd, self.rweights((oc, kh, kw, ic), wdist), wsc, [0] * nsc, 0)
+        S = self.const(nm + "_shape", (4,), "int32", np.array([1, oh, ow, oc]), None, None)
+        ins = [S.name, W.name, x]
+        if bias:
+            bsc = [float(np.float32(X.scale[0] * s_)) for s_ in wsc]
+            B = self.const(nm + "_b", (oc,), "int32", r.integers(-2 ** 15, 2 ** 15, (oc,)), bsc, [0] * nsc, 0)
+            ins.append(B.name)
+        out = self.act(nm + "_o", (1, oh, ow, oc), oscale, ozp, dtype=X.dtype.name)
+        self.last_conv = (W.name, ins[3] if len(ins) > 3 else None)
+        self.net.add_o(BO.TRANSPOSE_CONV, ins, [out.name], "TransposeConvOptions", dict(padding=padding, stride_w=stride, stride_h=stride), 3)
+        self.kinds.append("tconv")
         return out.name
 
     def dwconv(self, x, k=3, stride=1, padding=PAD_SAME, act=ACT_NONE, dil=1, per_channel=True, mult=1, oscale=None, ozp=None, wdist=None):
@@ -406,7 +451,9 @@ def _rand_exact_op(g, x, allow_fc=False, big=False):
     r = g.rng
     X = g.T(x)
     _, h, w, c = X.shape
-    choice = r.choice(["conv", "conv", "dw", "maxpool", "add", "mul", "sub", "relu", "conv1", "addc", "min", "concat", "split", "reshape_rt", "pad_conv"])
+    choice = r.choice(["conv", "conv", "dw", "maxpool", "add", "mul", "sub", "relu", "conv1", "addc", "min", "concat", "split", "reshape_rt", "pad_conv", "tconv"])
+    if choice == "tconv" and (X.dtype.name == "int16" or h * w > 144):
+        choice = "conv"
     act = int(r.choice([ACT_NONE, ACT_NONE, ACT_RELU, ACT_RELU6, ACT_RELU_N1_1]))
     if choice in ("conv", "conv1"):
         k = 1 if choice == "conv1" else int(r.choice([1, 2, 3, 3, 5]))
@@ -416,6 +463,10 @@ def _rand_exact_op(g, x, allow_fc=False, big=False):
         dil = int(r.choice([1, 1, 1, 2])) if (s == 1 and (k - 1) * 2 + 1 <= min(h, w)) else 1
         oc = int(r.choice([4, 8, 12, 16, 24, 32, 7, 19] + ([48, 64, 96] if big else [])))
         return g.conv(x, oc, k, s, pad, act, dil, per_channel=bool(r.integers(0, 4)))
+    if choice == "tconv":
+        s = int(r.choice([1, 2, 2]))
+        k = int(r.choice([1, 2, 3, 3, 4]))
+        return g.tconv(x, int(r.choice([4, 8, 16, 7])), k, s, int(r.choice([PAD_SAME, PAD_VALID])), per_channel=bool(r.integers(0, 4)), kw=int(r.choice([k, k, 2])))
     if choice == "dw":
         k = min(int(r.choice([2, 3, 3, 5])), h, w)
         s = int(r.choice([1, 1, 2])) if min(h, w) >= 4 else 1
@@ -619,6 +670,43 @@ def fam_buffer_stress(seed):
     return g.finish([x], "buffer-stress", "exact")
 
 
+def fam_shared_weights(seed):
+    """several convolutions consuming one filter tensor: other input scales (separate bias), the same bias tensor, or activations of the other width
+    (int8 / int16) - the compiler keeps one process-wide cache of encoded weights keyed by the filter tensor"""
+    r = rng_for("sharedw", seed)
+    g = G(r, "int8")
+    h, w = int(r.choice([3, 4, 6, 8])), int(r.choice([3, 4, 8]))
+    ic = int(r.choice([3, 8, 16, 24, 40, 64]))
+    oc = int(r.choice([8, 16, 17, 32, 33, 48]))
+    k = int(r.choice([1, 1, 2, 3]))
+    kw = int(r.choice([k, 1]))
+    pc = bool(r.integers(0, 2))
+    d0 = "int16" if r.random() < 0.3 else "int8"
+    x = g.input([1, h, w, ic], dtype=d0)
+    y0 = g.conv(x, oc, k, 1, PAD_SAME, int(r.choice([0, 1])), per_channel=pc, kw=kw, bias64=bool(r.integers(0, 5)))
+    wname, bname = g.last_conv
+    outs = [y0]
+    for _ in range(int(r.integers(1, 4))):
+        mode = int(r.integers(0, 4))
+        if mode == 3 and d0 == "int16":
+            mode = 0
+        if mode == 3:  # a transpose convolution consuming the same filter (the hardware needs it reversed in H and W)
+            x2 = g.input([1, h, w, ic], dtype=d0)
+            outs.append(g.tconv(x2, oc, k, int(r.choice([1, 2])), PAD_SAME, per_channel=pc, kw=kw, share_w=wname))
+        elif mode == 0:  # same activation type, other scales, own bias
+            x2 = g.input([1, h, w, ic], dtype=d0)
+            outs.append(g.conv(x2, oc, k, 1, PAD_SAME, int(r.choice([0, 1])), per_channel=pc, kw=kw, share_w=wname))
+        elif mode == 1:  # same filter and the same bias: input with the same scale
+            X = g.T(x)
+            x2 = g.input([1, h, w, ic], scale=X.scale[0], dtype=d0)
+            outs.append(g.conv(x2, oc, k, 1, PAD_SAME, int(r.choice([0, 1])), per_channel=pc, kw=kw, share_w=wname, share_b=bname))
+        else:  # activations of the other width
+            d1 = "int8" if d0 == "int16" else "int16"
+            x2 = g.input([1, h, w, ic], dtype=d1)
+            outs.append(g.conv(x2, oc, k, 1, PAD_SAME, int(r.choice([0, 1])), per_channel=pc, kw=kw, share_w=wname, bias64=bool(r.integers(0, 5))))
+    return g.finish(outs, "shared-weights", "exact")
+
+
 def fam_lut_stress(seed):
     r = rng_for("lut", seed)
     g = G(r, "int8")
@@ -728,6 +816,7 @@ FAMILIES = {
     "lut-stress": fam_lut_stress,
     "alias-stress": fam_alias_stress,
     "cpu-mix": fam_cpu_mix,
+    "shared-weights": fam_shared_weights,
 }
 
 
